@@ -65,7 +65,8 @@ def run(ctx):
 
 
 def search(ctx):
-    if ctx.thorough:
+    # thorough re-run only when the driver grants the time for it (ctx.search_budget_s)
+    if ctx.thorough or getattr(ctx, "search_budget_s", 0) < 600:
         return
     ctx.tier = "thorough"
     ctx.thorough = True
